@@ -534,6 +534,326 @@ theorem c12_ws_delivery_complete (st : Core) (es : List Text) (t : Ticket) (star
         simp [this]
       · simp [hc] at ho
 
+/-! ### C12.4 — typed results (`R` decoded per entry by `δ`) -/
+
+section typed
+variable {ρ : Type}
+
+theorem decodeEntries_spec (δ : Text → Option ρ) : ∀ (ps : List Payload) (es : List (TEntry ρ)),
+    decodeEntries δ ps = some es →
+    es.length = ps.length ∧ ∀ (i : Nat) (p : Payload), ps[i]? = some p → ∃ e, decodePayload δ p = some e ∧ es[i]? = some e := by
+  intro ps
+  induction ps with
+  | nil => intro es h; simp [decodeEntries] at h; subst h; simp
+  | cons p r ih =>
+    intro es h
+    simp only [decodeEntries] at h
+    cases hp : decodePayload δ p with
+    | none => simp [hp] at h
+    | some e =>
+      simp only [hp] at h
+      cases hr : decodeEntries δ r with
+      | none => simp [hr] at h
+      | some es' =>
+        simp only [hr, Option.some.injEq] at h
+        subst h
+        obtain ⟨h1, h2⟩ := ih es' hr
+        refine ⟨by simp [h1], ?_⟩
+        intro i q hq
+        cases i with
+        | zero => simp at hq; subst hq; exact ⟨e, hp, by simp⟩
+        | succ j =>
+          simp at hq
+          obtain ⟨e', he1, he2⟩ := h2 j q hq
+          exact ⟨e', he1, by simpa using he2⟩
+
+theorem decodeEntries_none (δ : Text → Option ρ) : ∀ (ps : List Payload),
+    decodeEntries δ ps = none → ∃ p ∈ ps, decodePayload δ p = none := by
+  intro ps
+  induction ps with
+  | nil => intro h; simp [decodeEntries] at h
+  | cons p r ih =>
+    intro h
+    simp only [decodeEntries] at h
+    cases hp : decodePayload δ p with
+    | none => exact ⟨p, by simp, hp⟩
+    | some e =>
+      simp only [hp] at h
+      cases hr : decodeEntries δ r with
+      | none =>
+        obtain ⟨q, hq, hd⟩ := ih hr
+        exact ⟨q, by simp [hq], hd⟩
+      | some es' => simp [hr] at h
+
+theorem decodeEntries_some_of_all (δ : Text → Option ρ) : ∀ (ps : List Payload),
+    (∀ p ∈ ps, decodePayload δ p ≠ none) → ∃ es, decodeEntries δ ps = some es := by
+  intro ps hall
+  cases h : decodeEntries δ ps with
+  | some es => exact ⟨es, rfl⟩
+  | none =>
+    obtain ⟨p, hp, hd⟩ := decodeEntries_none δ ps h
+    exact absurd hd (hall p hp)
+
+theorem countOk_le (l : List (TEntry ρ)) : countOk l ≤ l.length := by
+  induction l with
+  | nil => simp [countOk]
+  | cons p r ih => simp only [countOk, List.length_cons]; split <;> omega
+
+theorem respFor_payload (k : Nat) (rs : List Response) : (respFor k rs).payload = entryFor k rs := by
+  unfold respFor entryFor
+  cases lastWith k rs <;> simp [placeholder]
+
+/-- **WS client, typed.**  If `batch_request::<R>` returns `Ok`, it has exactly one entry per
+request entry, the i-th being the decoded answer bearing id `start+i` (or the placeholder error when
+there is none), never a shorter list, never another entry's answer; the counters fit the entries. -/
+theorem c12_ws_typed_positional (δ : Text → Option ρ) (start n : Nat) (rs : List Response) (b : TBatchResult ρ)
+    (h : wsBatchT δ start n rs = .ok b) :
+    b.entries.length = n ∧
+    (∀ i, i < n → ∃ e, decodePayload δ (entryFor (start + i) rs) = some e ∧ b.entries[i]? = some e) ∧
+    b.successes + b.failures = n ∧ b.successes = countOk b.entries := by
+  unfold wsBatchT at h
+  cases hr : wsBatchRaw start n rs with
+  | err e => simp [hr] at h
+  | ok out =>
+    simp only [hr] at h
+    obtain ⟨h1, h2⟩ := c12_ws_positional_raw start n rs out hr
+    unfold wsTyped at h
+    cases hd : decodeEntries δ (out.map (·.payload)) with
+    | none => simp [hd] at h
+    | some es =>
+      simp only [hd, TRes.ok.injEq] at h
+      subst h
+      obtain ⟨d1, d2⟩ := decodeEntries_spec δ _ es hd
+      have hl : es.length = n := by rw [d1]; simp [h1]
+      refine ⟨hl, ?_, ?_, rfl⟩
+      · intro i hi
+        have hp : (out.map (·.payload))[i]? = some (entryFor (start + i) rs) := by
+          simp only [List.getElem?_map, h2 i hi, Option.map_some, respFor_payload]
+        exact d2 i _ hp
+      · have := countOk_le es
+        show countOk es + (es.length - countOk es) = n
+        omega
+
+/-- all or nothing (WS): the typed call fails with `ParseError` exactly when the raw reply is
+accepted but the answer of some entry cannot be decoded — there is no third outcome in which that
+entry is skipped -/
+theorem c12_ws_typed_parse_iff (δ : Text → Option ρ) (start n : Nat) (rs : List Response) :
+    wsBatchT δ start n rs = .parse ↔
+    (∃ out, wsBatchRaw start n rs = .ok out) ∧ ∃ i, i < n ∧ decodePayload δ (entryFor (start + i) rs) = none := by
+  unfold wsBatchT
+  cases hr : wsBatchRaw start n rs with
+  | err e => simp
+  | ok out =>
+    obtain ⟨h1, h2⟩ := c12_ws_positional_raw start n rs out hr
+    simp only
+    unfold wsTyped
+    constructor
+    · intro h
+      cases hd : decodeEntries δ (out.map (·.payload)) with
+      | some es => simp [hd] at h
+      | none =>
+        obtain ⟨p, hp, hn⟩ := decodeEntries_none δ _ hd
+        obtain ⟨i, hi, hg⟩ := List.getElem_of_mem hp
+        have hi' : i < n := by simpa [h1] using hi
+        refine ⟨⟨out, rfl⟩, i, hi', ?_⟩
+        have hp2 : (out.map (·.payload))[i]? = some (entryFor (start + i) rs) := by
+          simp only [List.getElem?_map, h2 i hi', Option.map_some, respFor_payload]
+        have hp3 : (out.map (·.payload))[i]? = some p := by
+          rw [List.getElem?_eq_getElem hi, hg]
+        rw [hp3] at hp2
+        simp at hp2
+        rw [← hp2]; exact hn
+    · intro ⟨_, i, hi, hn⟩
+      cases hd : decodeEntries δ (out.map (·.payload)) with
+      | none => rfl
+      | some es =>
+        obtain ⟨_, d2⟩ := decodeEntries_spec δ _ es hd
+        have hp : (out.map (·.payload))[i]? = some (entryFor (start + i) rs) := by
+          simp only [List.getElem?_map, h2 i hi, Option.map_some, respFor_payload]
+        obtain ⟨e, he, _⟩ := d2 i _ hp
+        rw [hn] at he; simp at he
+
+theorem setAt_decode (δ : Text → Option ρ) (p : Payload) (e : TEntry ρ) (hp : decodePayload δ p = some e) :
+    ∀ (ps : List Payload) (ts ts' : List (TEntry ρ)) (i : Nat), decodeEntries δ ps = some ts → setAt ts i e = some ts' →
+    ∃ ps', setAt ps i p = some ps' ∧ decodeEntries δ ps' = some ts' := by
+  intro ps
+  induction ps with
+  | nil =>
+    intro ts ts' i hd hs
+    simp [decodeEntries] at hd; subst hd
+    simp [setAt] at hs
+  | cons q r ih =>
+    intro ts ts' i hd hs
+    simp only [decodeEntries] at hd
+    cases hq : decodePayload δ q with
+    | none => simp [hq] at hd
+    | some eq =>
+      simp only [hq] at hd
+      cases hr : decodeEntries δ r with
+      | none => simp [hr] at hd
+      | some es =>
+        simp only [hr, Option.some.injEq] at hd
+        subst hd
+        cases i with
+        | zero =>
+          simp only [setAt, Option.some.injEq] at hs
+          subst hs
+          exact ⟨p :: r, rfl, by simp [decodeEntries, hp, hr]⟩
+        | succ j =>
+          simp only [setAt] at hs
+          cases hj : setAt es j e with
+          | none => simp [hj] at hs
+          | some es' =>
+            simp only [hj, Option.some.injEq] at hs
+            subst hs
+            obtain ⟨r', hr1, hr2⟩ := ih es es' j hr hj
+            exact ⟨q :: r', by simp [setAt, hr1], by simp [decodeEntries, hq, hr2]⟩
+
+/-- the typed HTTP fill loop is the raw one followed by decoding, whenever it succeeds -/
+theorem httpFillT_sim (δ : Text → Option ρ) (start : Nat) : ∀ (rs : List Response) (ps : List Payload) (ts out : List (TEntry ρ)),
+    decodeEntries δ ps = some ts → httpFillT δ start ts rs = .ok out →
+    ∃ pout, httpFill start ps rs = .ok pout ∧ decodeEntries δ pout = some out := by
+  intro rs
+  induction rs with
+  | nil =>
+    intro ps ts out hd h
+    simp only [httpFillT, TRes.ok.injEq] at h
+    subst h
+    exact ⟨ps, rfl, hd⟩
+  | cons rp rest ih =>
+    intro ps ts out hd h
+    simp only [httpFillT] at h
+    cases hid : idNum rp.id with
+    | none => simp [hid] at h
+    | some id =>
+      simp only [hid] at h
+      cases hp : decodePayload δ rp.payload with
+      | none => simp [hp] at h
+      | some e =>
+        simp only [hp] at h
+        by_cases hlt : id < start
+        · simp [hlt] at h
+        · simp only [hlt, if_false] at h
+          cases hs : setAt ts (id - start) e with
+          | none => simp [hs] at h
+          | some ts' =>
+            simp only [hs] at h
+            obtain ⟨ps', hs1, hs2⟩ := setAt_decode δ rp.payload e hp ps ts ts' (id - start) hd hs
+            obtain ⟨pout, h1, h2⟩ := ih ps' ts' out hs2 h
+            refine ⟨pout, ?_, h2⟩
+            simp only [httpFill, hid, hlt, if_false, hs1]
+            exact h1
+
+theorem decodeEntries_placeholders (δ : Text → Option ρ) (n : Nat) :
+    decodeEntries δ (List.replicate n (Payload.error placeholderErr)) = some (List.replicate n (TEntry.err placeholderErr)) := by
+  induction n with
+  | zero => rfl
+  | succ k ih => simp [List.replicate_succ, decodeEntries, decodePayload, ih]
+
+/-- **HTTP client, typed**: the same statement -/
+theorem c12_http_typed_positional (δ : Text → Option ρ) (start n : Nat) (rs : List Response) (b : TBatchResult ρ)
+    (h : httpBatchT δ start n rs = .ok b) :
+    b.entries.length = n ∧
+    (∀ i, i < n → ∃ e, decodePayload δ (entryFor (start + i) rs) = some e ∧ b.entries[i]? = some e) ∧
+    b.successes + b.failures = n ∧ b.successes = countOk b.entries := by
+  unfold httpBatchT at h
+  cases hf : httpFillT δ start (List.replicate n (TEntry.err placeholderErr)) rs with
+  | err e => simp [hf] at h
+  | parse => simp [hf] at h
+  | ok slots =>
+    simp only [hf, TRes.ok.injEq] at h
+    subst h
+    obtain ⟨pout, h1, h2⟩ := httpFillT_sim δ start rs _ _ slots (decodeEntries_placeholders δ n) hf
+    have hb : httpBatch start n rs = .ok { entries := pout, successes := countResults pout, failures := pout.length - countResults pout } := by
+      unfold httpBatch; rw [h1]
+    obtain ⟨p1, p2, _⟩ := c12_http_positional start n rs _ hb
+    obtain ⟨d1, d2⟩ := decodeEntries_spec δ pout slots h2
+    have hl : slots.length = n := by rw [d1]; exact p1
+    refine ⟨hl, fun i hi => d2 i _ (p2 i hi), ?_, rfl⟩
+    have := countOk_le slots
+    show countOk slots + (slots.length - countOk slots) = n
+    omega
+
+/-- an HTTP `ParseError` of the typed call needs an undecodable answer in the reply -/
+theorem c12_http_typed_parse_only_if (δ : Text → Option ρ) (start n : Nat) (rs : List Response)
+    (h : httpBatchT δ start n rs = .parse) : ∃ r ∈ rs, decodePayload δ r.payload = none := by
+  unfold httpBatchT at h
+  have key : ∀ (rs : List Response) (ts : List (TEntry ρ)), httpFillT δ start ts rs = .parse →
+      ∃ r ∈ rs, decodePayload δ r.payload = none := by
+    intro rs
+    induction rs with
+    | nil => intro ts h; simp [httpFillT] at h
+    | cons rp rest ih =>
+      intro ts h
+      simp only [httpFillT] at h
+      cases hid : idNum rp.id with
+      | none => simp [hid] at h
+      | some id =>
+        simp only [hid] at h
+        cases hp : decodePayload δ rp.payload with
+        | none => exact ⟨rp, by simp, hp⟩
+        | some e =>
+          simp only [hp] at h
+          by_cases hlt : id < start
+          · simp [hlt] at h
+          · simp only [hlt, if_false] at h
+            cases hs : setAt ts (id - start) e with
+            | none => simp [hs] at h
+            | some ts' =>
+              simp only [hs] at h
+              obtain ⟨r, hr, hd⟩ := ih ts' h
+              exact ⟨r, by simp [hr], hd⟩
+  cases hf : httpFillT δ start (List.replicate n (TEntry.err placeholderErr)) rs with
+  | err e => simp [hf] at h
+  | ok slots => simp [hf] at h
+  | parse => exact key rs _ hf
+
+/-- with a decoder that never fails (`R = Box<RawValue>`) the typed call is the raw one -/
+theorem c12_typed_raw_agree (start n : Nat) (rs : List Response) (b : TBatchResult Text)
+    (h : wsBatchT (fun t => some t) start n rs = .ok b) :
+    ∃ b0, wsBatch start n rs = .ok b0 ∧ b0.entries.length = b.entries.length ∧ b0.successes = b.successes := by
+  unfold wsBatchT at h
+  cases hr : wsBatchRaw start n rs with
+  | err e => simp [hr] at h
+  | ok out =>
+    simp only [hr] at h
+    unfold wsTyped at h
+    cases hd : decodeEntries (fun t => some t) (out.map (·.payload)) with
+    | none => simp [hd] at h
+    | some es =>
+      simp only [hd, TRes.ok.injEq] at h
+      subst h
+      refine ⟨wsEntries out, by unfold wsBatch; rw [hr], ?_, ?_⟩
+      · simp [wsEntries, (decodeEntries_spec _ _ es hd).1]
+      · have key : ∀ (ps : List Payload) (ts : List (TEntry Text)), decodeEntries (fun t => some t) ps = some ts →
+            countResults ps = countOk ts := by
+          intro ps
+          induction ps with
+          | nil => intro ts h; simp [decodeEntries] at h; subst h; rfl
+          | cons p r ih =>
+            intro ts h
+            simp only [decodeEntries] at h
+            cases p with
+            | result v =>
+              simp only [decodePayload, Option.map_some] at h
+              cases hr2 : decodeEntries (fun t => some t) r with
+              | none => simp [hr2] at h
+              | some es2 =>
+                simp only [hr2, Option.some.injEq] at h
+                subst h
+                simp [countResults, countOk, isResult, TEntry.isOk, ih es2 hr2]
+            | error e =>
+              simp only [decodePayload] at h
+              cases hr2 : decodeEntries (fun t => some t) r with
+              | none => simp [hr2] at h
+              | some es2 =>
+                simp only [hr2, Option.some.injEq] at h
+                subst h
+                simp [countResults, countOk, isResult, TEntry.isOk, ih es2 hr2]
+        exact key _ es hd
+
+end typed
+
 /-! ### non-vacuity and regression witnesses -/
 
 def rOk (id : Id) (v : String) : Response := { jsonrpc := true, id := id, payload := .result (lit v) }
@@ -560,5 +880,16 @@ example : wsBatch 0 1 [rOk (.num 18446744073709551615) "x"] = .err (.invalidNum 
 -- duplicate id: the later answer bearing that id wins, nobody else's slot is touched
 example : httpBatch 0 2 [rOk (.num 0) "a", rOk (.num 1) "b", rOk (.num 0) "c"] =
     .ok { entries := [.result (lit "c"), .result (lit "b")], successes := 2, failures := 0 } := by decide
+
+-- typed (R = u64 via `decodeU64`): a complete reply in reverse order, all results numbers
+example : wsBatchT decodeU64 4 3 [rOk (.num 6) "6", rOk (.num 5) "5", rOk (.num 4) "4"] =
+    .ok { entries := [.ok 4, .ok 5, .ok 6], successes := 3, failures := 0 } := by decide
+-- the seeded bug C12-R3: entry 1 is a string where a number is expected — the whole call fails; it
+-- is never `Ok [4, 6]` (one entry short, entry 1 holding entry 2's answer)
+example : wsBatchT decodeU64 4 3 [rOk (.num 4) "4", rOk (.num 5) "\"x\"", rOk (.num 6) "6"] = .parse := by decide
+example : httpBatchT decodeU64 4 3 [rOk (.num 4) "4", rOk (.num 5) "\"x\"", rOk (.num 6) "6"] = .parse := by decide
+-- an error entry is an entry, not a decode failure
+example : httpBatchT decodeU64 0 2 [{ jsonrpc := true, id := .num 1, payload := .error placeholderErr }, rOk (.num 0) "9"] =
+    .ok { entries := [.ok 9, .err placeholderErr], successes := 1, failures := 1 } := by decide
 
 end Jrpc.Client
